@@ -6,7 +6,7 @@
     strategies_order supports_probe_agrees union_is_first_nonNone single_eq_generic
     forest_positional_differs true_pred_irrelevant self_prefix_irrelevant_partial
     simple_eq_generic_partial equivalent_spellings_agree self_prefix_irrelevant_nonpositional
-    dslash_is_descendant
+    dslash_is_descendant simple_eq_generic_kmp
 -/
 import Genshi.Model.Path
 import Genshi.Model.PathParse
@@ -16,6 +16,7 @@ import Genshi.Lemmas.PathSingle
 import Genshi.Lemmas.PathSpelling
 import Genshi.Lemmas.PathSimple
 import Genshi.Lemmas.PathNonPos
+import Genshi.Lemmas.PathKmpRun
 namespace Genshi.Props.C17
 open Genshi Genshi.Path
 
@@ -411,7 +412,9 @@ theorem runTest_simple (frags : Option (List Frag)) (ic : Bool) (ns : NsMap) (vs
     both caller behaviours, every element tree — the fragment that is bound to the context
     node, where Simple's pair (fragment, matched prefix length) is an abstraction of Generic's
     single candidate position (`Lemmas/PathSimple.lean`: `sim_chain`).
-    Missing: fragments entered through `descendant::` / `descendant-or-self::` (the
+    See `simple_eq_generic_kmp` below for the fragment matched with KMP (`descendant::t1/…/tn`,
+    leading `//t1/…/tn`).
+    Missing: several fragments in one path, a context-bound fragment followed by a KMP one (the
     Knuth-Morris-Pratt part: prefix table `calculate_pi` and the fall-back loop), the pattern
     mode, `self::` steps and the final attribute step.  Those are covered by the per-event
     correspondence with the real strategies and by the strategy-vs-strategy oracle. -/
@@ -440,6 +443,42 @@ theorem simple_eq_generic_partial (tests : List NodeTest) (hne : tests ≠ []) (
   have hk := (sim_chain ns vs tests hne (calculatePi tests)).flattenList kids hok 1 (Nat.le_refl _) _ _ hi
   rw [hk.1]
   simp [runOne, gStep_end, pStep, Event.isEnd]
+
+/-- **simple_eq_generic** for the fragment that is matched with KMP.
+    For every path `descendant::t1/t2/…/tn` and `descendant-or-self::t1/t2/…/tn` (what the
+    parser makes of a leading `//t1/…/tn`), n ≥ 1, with name, `text()` or `comment()` tests —
+    the paths whose fragment can start anywhere below (or at) the context node —, relative
+    mode, both caller behaviours and every element tree, SimplePathStrategy reports at every
+    event what GenericStrategy reports.
+
+    Proof (`Lemmas/PathKmp*.lean`): `calculate_pi` computes the failure function — entry `q-1`
+    is the length of the longest proper border of the first `q` tests (`calculatePi_ok`;
+    borders with respect to `nodes_equal`, which for the supported tests is exactly "satisfied
+    by the same events": `compat_event`); the back-stepping loop, shared by `calculate_pi` and
+    the matcher, finds the longest candidate (`back_spec`); hence the `p` on Simple's stack is
+    always the longest prefix of the fragment that matches the end of the chain of ancestors
+    (`kmpStep_max`).  GenericStrategy's candidate positions below the same chain are the start
+    of the fragment and one position per matching prefix (`PosOK`, via `aLoop_plain`).  Both
+    report `True` exactly when the whole fragment matches the end of the chain (`kmp_tree`). -/
+theorem simple_eq_generic_kmp (ax0 : Axis) (hax : ax0 = .descendant ∨ ax0 = .descendantOrSelf)
+    (tests : List NodeTest) (hne : tests ≠ [])
+    (hsimple : ∀ t ∈ tests, Kmp.simpleT t = true)
+    (ns : NsMap) (vs : Vars) (skip : Bool)
+    (tag : QName) (attrs : AttrList) (kids : List Node) (hcl : cleanList kids = true) :
+    traceCaller (pathTest [Kmp.fragPath ax0 tests] false (some .simple)).1 ns vs skip
+        (pathTest [Kmp.fragPath ax0 tests] false (some .simple)).2 (Node.elem tag attrs kids).flatten
+      = traceCaller (pathTest [Kmp.fragPath ax0 tests] false (some .generic)).1 ns vs skip
+        (pathTest [Kmp.fragPath ax0 tests] false (some .generic)).2 (Node.elem tag attrs kids).flatten := by
+  simp only [traceCaller, pathTest, List.map_cons, List.map_nil, mkMatcher]
+  rw [runTest_generic, runTest_simple, Kmp.kmp_runs ns vs ax0 hax tests hne (Kmp.simple_of_mem tests hsimple) tag attrs kids hcl]
+
+-- non-vacuity: `//a/a/b` (the fragment overlaps itself) on <a><a><a><b/></a></a></a>
+example : runTest (pathTest [Kmp.fragPath .descendantOrSelf
+      [.localName false ['a'], .localName false ['a'], .localName false ['b']]] false (some .simple)).1 [] []
+    (pathTest [Kmp.fragPath .descendantOrSelf
+      [.localName false ['a'], .localName false ['a'], .localName false ['b']]] false (some .simple)).2
+    (Node.elem ⟨[], ['a']⟩ [] [Node.elem ⟨[], ['a']⟩ [] [Node.elem ⟨[], ['a']⟩ [] [Node.elem ⟨[], ['b']⟩ [] []]]]).flatten
+    = [.none, .none, .none, .bool true, .none, .none, .none, .none] := by decide +kernel
 
 -- non-vacuity: `a/b` on <r><a><b/></a></r>
 example : runTest (pathTest [childChain [.localName false ['a'], .localName false ['b']]] false (some .simple)).1 [] []
